@@ -13,6 +13,8 @@ def case_for_c03(rng):
 
 def case_for_oracle(rng):
     c = case_for_c03(rng)
+    if rng.random() < 0.3:      # a user-supplied start point must not change the budget accounting
+        c['start'] = H.random_start(rng, c['lo'], c['hi'])
     if rng.random() < 0.35:
         c['refine'] = True
         c['iters'] = rng.choice([20, 40, 60, 100]); c['eps'] = rng.choice([1e-7, 1e-3, 0.05])
@@ -57,6 +59,21 @@ def run(chk):
             found += chk.violation('stop-rule', fails[0], {'kind': 'solve', 'case': case})
             if found > 2:
                 break
+    # failing objectives with a binding budget: Solve returns and never calls the objective more than itersLimit times
+    for i in range(30 if thorough else 10):
+        case = case_for_c03(rng)
+        case['iters'] = rng.choice([20, 40, 100, 150]); case['eps'] = 1e-9; case['exc'] = rng.choice(['RuntimeError', 'ValueError', 'ZeroDivisionError'])
+        if i % 3 == 0:
+            case['fail_at'] = 1      # the very first trial (the box centre) fails
+        else:
+            a = case['lo'][0] + (case['hi'][0] - case['lo'][0]) * rng.uniform(0.52, 0.8)
+            case['fail_region'] = [0, a, a + (case['hi'][0] - case['lo'][0]) * rng.uniform(0.05, 0.2)]
+        fails = O.guarded(O.c03_failing, case)
+        chk.evaluations += 1
+        if fails:
+            found += chk.violation('stop-rule', fails[0], {'kind': 'failing', 'case': case})
+            if found > 2:
+                break
     # the recorded finding F8: an eps below the binary64 resolution of the curve parameter cannot be reached; the search then ends
     # through the "x is outside of interval" guard of CalculateNextPointCoordinate - earlier than the property allows
     found += float_resolution(chk)
@@ -82,6 +99,8 @@ def replay(chk, rp):
         fails = O.guarded(O.c03, rp['case'])
         print(fails)
         return not fails
+    if rp.get('kind') == 'failing':
+        fails = O.guarded(O.c03_failing, rp['case']); print(fails); return not fails
     if rp.get('kind') == 'nonfinite':
         print('re-run the check')
         return False
